@@ -194,6 +194,17 @@ check("C17", "exploration",
       "a .git write is legitimate only when the innermost dulwich frame is a git-internal writer (file/refs/object_store/pack/reflog/config/repo); set-id/sticky bits on created files are counted, not judged; hostile absolute paths point into the sandbox and the monitor blocks anything that would land beyond it",
       "DESIGN.md §5 C17")
 
+check("C18", "exploration",
+      "three-observer runtime monitor around the library's own checkout/status/staging code: after every step dulwich's answer is compared with an independent model (HEAD from git ls-tree, index from git ls-files -s, working directory from the harness's own lstat/read/readlink walk with its own blob hashing) and with C git (status --porcelain=v1 -z, write-tree); a step where model and C git disagree is inconclusive, never a violation",
+      "random trees of 2-8 valid paths (31 name shapes: spaces, tabs, quotes, backslashes, newlines, control bytes, non-UTF-8, NFC/NFD, 120-byte "
+      "names, leading dash, glob characters; nesting up to 2) with empty/text/binary/CRLF/70-300 KB contents, executables, symlinks (dangling, "
+      "to directories, self-referential, absolute), and two related trees each (content, exec-bit only, type change with identical bytes, "
+      "add/delete, file<->directory); checkout by clone / reset --hard / checkout; restage into the existing or an emptied index; 2-8 random "
+      "edits {modify same/different size, chmod, delete, untracked file/dir, file<->symlink, file<->dir, add, WorkTree.stage, unstage, "
+      "rm --cached, commit, switch} with a status comparison after each; up to 4 ordered pairs of clean branch switches per case.",
+      "core.autocrlf=false, no .gitignore/.gitattributes, untracked-files=all; index operations that refuse (unstage of a file<->directory change) are counted and the state they leave is still compared; the harness waits 12 ms after index writes so edits are not racily clean by accident (dulwich has no racy-clean protection; not driven here)",
+      "DESIGN.md §5 C18")
+
 ALL = ["C%02d" % i for i in range(1, 21)]
 
 
